@@ -51,13 +51,15 @@ FLOORS = {'quick': {'nontrivial': 1500, 'monitors': {'M.outcome': 6000, 'T.trace
                                  'fault-fired:open-fail': 40, 'fault-fired:failpoint': 2000, 'fault-fired:corrupt-patch': 20,
                                  'fault-fired:trunc-patch': 20, 'fault-fired:inconsistent-patch': 20, 'converged-by-chain>=2': 25, 'alg:sha256': 1000, 'alg:sha1': 1000,
                                  'damaged-index:malformed': 100, 'damaged-index:grammatical': 40, 'converged-by-chain>=2-with-names-not-in-text-order': 15,
-                                 'next-call:after-success': 230, 'next-call:after-error': 1700, 'advance:second-stage-by-chain': 60}},
+                                 'next-call:after-success': 230, 'next-call:after-error': 1700, 'advance:second-stage-by-chain': 60,
+                                 'call-spelling:deprecated-alias-or-keywords': 350}},
           'thorough': {'nontrivial': 60000, 'monitors': {'M.outcome': 250000, 'T.trace': 250000, 'M.next-call': 190000, 'M.advance': 12000},
                        'counters': {'fault-fired:write-fail': 20000, 'fault-fired:rename-veto': 1500, 'fault-fired:close-fail': 1500,
                                     'fault-fired:open-fail': 1500, 'fault-fired:failpoint': 80000, 'fault-fired:corrupt-patch': 800,
                                     'fault-fired:trunc-patch': 800, 'fault-fired:inconsistent-patch': 800, 'converged-by-chain>=2': 1500, 'alg:sha256': 40000,
                                     'alg:sha1': 40000, 'damaged-index:malformed': 7000, 'damaged-index:grammatical': 3000, 'converged-by-chain>=2-with-names-not-in-text-order': 1000,
-                                    'next-call:after-success': 23000, 'next-call:after-error': 170000, 'advance:second-stage-by-chain': 6000}}}
+                                    'next-call:after-success': 23000, 'next-call:after-error': 170000, 'advance:second-stage-by-chain': 6000,
+                                    'call-spelling:deprecated-alias-or-keywords': 30000}}}
 LEVEL_TEXT = ('Runtime monitoring with fault enumeration: for every generated (history, local state) the call is repeated once per '
               'fault position - every write index, every executed source line of the four functions, every patch of the chain - '
               'against a file:// mirror; an outcome oracle and a trace specification over audit events decide each execution.  '
@@ -569,6 +571,16 @@ def _one(ctx, case, d, count_only=False):
                         import io
                         with contextlib.redirect_stdout(io.StringIO()):
                             ret = ds.update_file(remote, local, verbose=True)
+                    elif (len(vs) + len(start)) % 5 == 0:
+                        # the same call under its other public names / spellings
+                        import warnings
+                        ctx.count('call-spelling:deprecated-alias-or-keywords')
+                        with warnings.catch_warnings():
+                            warnings.simplefilter('ignore', DeprecationWarning)
+                            if (fault.get('j') or fault.get('k') or fault.get('n') or 0) % 2:
+                                ret = ds.updateFile(remote, local)
+                            else:
+                                ret = ds.update_file(remote=remote, local=local, verbose=False)
                     else:
                         ret = ds.update_file(remote, local)
                 except Exception as e:      # noqa - every error kind is an outcome here
